@@ -40,6 +40,7 @@ PRIM = {
     '__uint128_t': 'unsigned __int128', '__int128_t': '__int128', 'unsigned': 'uint32_t',
     'long double': 'long double', 'std::nullptr_t': 'void*', 'nullptr_t': 'void*',
     '_MM_CMPINT_ENUM': 'int32_t', '_MM_MANTISSA_SIGN_ENUM': 'int32_t', '_MM_MANTISSA_NORM_ENUM': 'int32_t', '_MM_PERM_ENUM': 'int32_t',
+    'Cache_level': 'uint8_t', 'avel::Cache_level': 'uint8_t', 'std::max_align_t': 'avm_max_align_t', 'max_align_t': 'avm_max_align_t',
     '__m128i': 'm128', '__m128': 'm128', '__m128d': 'm128', '__m256i': 'm256', '__m256': 'm256', '__m256d': 'm256',
     '__m512i': 'm512', '__m512': 'm512', '__m512d': 'm512',
     '__m128i_u': 'm128', '__m256i_u': 'm256', '__m512i_u': 'm512', '__m128_u': 'm128', '__m128d_u': 'm128',
@@ -232,6 +233,7 @@ class Emitter:
             return PRIM[t]
         if t.startswith('avel::'):
             t = t[6:]
+        own = self.cur.get('owner') if self.cur else None
         m = re.match(r'^(Vector_mask|Vector)<(.+), ?(\d+)U?L?>$', t)
         if m:
             el = self.ctype_str(m.group(2), register)
@@ -272,13 +274,21 @@ class Emitter:
             if register:
                 self.need_struct(nm)
             return nm
+        m = re.match(r'^Aligned_allocator<(.+), ?(\d+)U?L?>::(pointer|const_pointer|size_type|value_type|void_pointer|const_void_pointer|difference_type)$', t)
+        if m:
+            el = self.ctype_str(m.group(1))
+            return {'pointer': el + '*', 'const_pointer': el + '*', 'size_type': 'size_t', 'value_type': el, 'void_pointer': 'void*',
+                    'const_void_pointer': 'void*', 'difference_type': 'int64_t'}[m.group(3)]
+        if own and own.startswith('Alloc_') and t.startswith('Aligned_allocator::'):
+            w = t.split('::', 1)[1]
+            if w == 'size_type':
+                return 'size_t'
         m = re.match(r'^Aligned_allocator<(.+), ?(\d+)U?L?>$', t)
         if m:
             el = self.ctype_str(m.group(1))
             nm = 'Alloc_%s_%s' % (SCAL.get(el, re.sub(r'\W', '_', el)), m.group(2))
             self.structs.setdefault(nm, [('_empty', 'char')])
             return nm
-        own = self.cur.get('owner') if self.cur else None
         if own:
             mo = re.match(r'^(Vec|Mask)_(\w+?)_(\d+)$', own)
             if mo:
@@ -665,6 +675,30 @@ class Emitter:
             return '((%s){0})' % T
         if k == 'CXXDefaultArgExpr':
             raise Abort('default argument outside call')
+        if k == 'CXXNewExpr':
+            # placement new of a scalar: new(p) T{init}  ->  store through p, with the alignment the object type requires
+            if not n.get('isPlacement') and not any(c.get('kind') == 'ImplicitCastExpr' for c in inner):
+                raise Abort('non-placement new')
+            T = self.ctype(n['type'])
+            if not T.endswith('*'):
+                raise Abort('new expression type ' + T)
+            et = T[:-1]
+            if et not in INT_BITS and et not in ('float', 'double'):
+                raise Abort('placement new of non-scalar ' + et)
+            place = None
+            init = None
+            for c in inner:
+                if self.ctype(c['type']).endswith('*') and place is None:
+                    place = c
+                else:
+                    init = c
+            if place is None:
+                raise Abort('placement new without placement argument')
+            self.cur['externs'].add('AVM_PLACEMENT_NEW')
+            iv = self.E(init) if init is not None else '((%s)0)' % et
+            if init is not None and init.get('kind') == 'InitListExpr':
+                iv = self.E(init['inner'][0]) if init.get('inner') else '((%s)0)' % et
+            return 'AVM_PLACEMENT_NEW(%s, %s, %s)' % (et, self.E(place), iv)
         if k == 'OpaqueValueExpr':
             return self.E(inner[0])
         if k == 'StmtExpr':
